@@ -12,6 +12,9 @@ driver on every module the harness plays).  One frame = kernel ; effects A ; ST2
 B, where the effect stages are arbitrary writes constrained by `EffOk` (monitored on every real
 frame).  `Core` is the range invariant of every API boundary, `RowInv` its row part, `Playing`
 = `Core ∧ pos = ord`, `Fresh` = "`f->num_rows` is the row count of the current pattern".
+`OrdWF m` (`Seq.ordWfB`, also evaluated on every module played): every kept sequence reaches an
+order holding a pattern; under it the order-skipping loop of `next_order` terminates
+(`C16_next_order_terminates`) and the `…_total` theorems have no divergence escape.
 -/
 namespace Xmp.Seq
 
@@ -220,6 +223,133 @@ example : ((frames exMod exStart exHist).map fun s => (s.pos, s.row, s.frame, s.
     [(0, 0, 0, 6), (0, 0, 1, 6), (1, 0, 0, 3), (1, 0, 1, 3)] := by
   decide
 
+/-! ### Termination: no frame hangs
+
+`OrdWF m` (`Seq.ordWfB`): every sequence reaches an order holding a pattern — through the restart
+position `next_order` wraps it to, at its entry point, or walking forward from the entry point
+before the end of the list / an 0xff end marker.  This is what `libxmp_scan_sequences` guarantees
+for every sequence it keeps (a kept scan played at least one row: `any_valid` in src/scan.c); the
+driver evaluates it on every module played and the harness evaluates the same clause in C. -/
+
+/-- **C16_next_order_terminates**: the `do { p->ord++ … } while (mod->xxo[p->ord] >= mod->pat)`
+loop of `next_order` (wrap to the restart position / the entry point at the end of the list and at
+0xff markers included) leaves through its own `while` condition within `len + 1` iterations, for
+every real sequence and every starting `p->ord ≥ -1` (any jump target — also one past the list —
+and any pending position): the fuelled model returns `some` with `len + 1` units of fuel, the
+result does not depend on the fuel above that (in particular it is the one `orderFuel` gives),
+and it is an order inside the list holding a pattern. -/
+theorem C16_next_order_terminates {m : SeqMod} (h : WF m) (ho : OrdWF m) {seq : Int} (hs : 0 ≤ seq ∧ seq < m.numSeq)
+    (ord : Int) (hord : -1 ≤ ord) (rg : Bool) :
+    ∃ o rg', nextOrderLoop m seq (m.len + 1).toNat ord rg = some (o, rg') ∧
+      (∀ k, nextOrderLoop m seq ((m.len + 1).toNat + k) ord rg = some (o, rg')) ∧
+      nextOrderLoop m seq orderFuel ord rg = some (o, rg') ∧
+      0 ≤ o ∧ o < m.len ∧ m.xo o < m.pat := by
+  have w := h.facts
+  have hl := w.len
+  have t := nextOrderLoop_terminates w ho hs.1 hs.2 ord rg hord (m.len + 1).toNat (by omega)
+  cases hq : nextOrderLoop m seq (m.len + 1).toNat ord rg with
+  | none => rw [hq] at t; simp at t
+  | some r =>
+    obtain ⟨o, rg'⟩ := r
+    have mono := nextOrderLoop_mono m seq (m.len + 1).toNat ord rg (o, rg')
+    refine ⟨o, rg', rfl, fun k => mono k hq, ?_, nextOrderLoop_spec w hs.1 hs.2 _ _ _ _ _ hord hq⟩
+    have e : orderFuel = (m.len + 1).toNat + (orderFuel - (m.len + 1).toNat) := by
+      have := orderFuel_ge w; omega
+    rw [e]; exact mono _ hq
+
+/-- **C16_frame_returns**: from every state satisfying the boundary invariant and for ALL effect
+outcomes, `xmp_play_frame` returns: the model never takes the `diverge` branch; and it returns
+`-XMP_END` (state untouched) exactly in the C's early-return cases — the order being played is an
+0xff end marker, or `xmp_stop_module` was called. -/
+theorem C16_frame_returns {m : SeqMod} (h : WF m) (ho : OrdWF m) {s : St} (hc : Core m s) (eA eB : Eff) :
+    playFrame m s eA eB ≠ .diverge ∧
+    (playFrame m s eA eB = .fin ↔ ((m.marker = true ∧ m.xo s.ord = 0xff) ∨ (s.ord ≠ s.pos ∧ s.pos = -2))) :=
+  ⟨playFrame_returns h.facts ho hc eA eB, playFrame_fin_iff h.facts ho hc eA eB⟩
+
+/-- **C16_inv_frame_total** (`C16_inv_frame` without the hypothesis that the frame succeeded):
+every `xmp_play_frame` from a state satisfying the boundary invariants, with effect outcomes
+inside `EffOk`, either returns `-XMP_END` leaving the state alone, or succeeds in a `Playing`
+state that satisfies the row invariant and whose frame time was computed from the reported tempo.
+There is no third outcome. -/
+theorem C16_inv_frame_total {m : SeqMod} (h : WF m) (ho : OrdWF m) {s : St} {eA eB : Eff} (hc : Core m s)
+    (hr : RowInv m s) (ha : EffOk eA) (hb : EffOk eB) :
+    playFrame m s eA eB = .fin ∨
+    ∃ s', playFrame m s eA eB = .ok s' ∧ Playing m s' ∧ RowInv m s' ∧ s'.ftBpm = s'.bpm := by
+  cases hq : playFrame m s eA eB with
+  | ok s' => exact Or.inr ⟨s', rfl, C16_inv_frame h hc hr ha hb hq⟩
+  | fin => exact Or.inl rfl
+  | diverge => exact absurd hq (C16_frame_returns h ho hc eA eB).1
+
+/-- every call of the history returns (no frame takes the `diverge` branch) -/
+def returnsB (m : SeqMod) : St → List Call → Bool
+  | _, [] => true
+  | s, .frame a b :: rest =>
+    match playFrame m s a b with
+    | .ok s' => returnsB m s' rest
+    | .fin => returnsB m s rest
+    | .diverge => false
+  | s, .ctl c :: rest => returnsB m (ctl m s c) rest
+
+def Returns (m : SeqMod) (s : St) (hist : List Call) : Prop := returnsB m s hist = true
+
+/-- **C16_reachable_total** (`C16_reachable` without the divergence escape): for EVERY history
+of frames and position-control calls whose effect outcomes stay inside `EffOk`, from any state
+satisfying the boundary invariants, every call returns — `frames` is therefore the complete list
+of states after the successful frames of the history — and each of them is `Playing`, satisfies
+the row invariant and has its frame time computed from the reported tempo. -/
+theorem C16_reachable_total {m : SeqMod} (h : WF m) (ho : OrdWF m) : ∀ (hist : List Call) (s : St), Core m s →
+    RowInv m s → EffsOk hist →
+    Returns m s hist ∧ ∀ s' ∈ frames m s hist, Playing m s' ∧ RowInv m s' ∧ s'.ftBpm = s'.bpm := by
+  intro hist s hc hr he
+  refine ⟨?_, C16_reachable h hist s hc hr he⟩
+  induction hist generalizing s with
+  | nil => rfl
+  | cons c rest ih =>
+    cases c with
+    | frame a b =>
+      obtain ⟨ea, eb, er⟩ := he
+      unfold Returns returnsB
+      rcases C16_inv_frame_total h ho hc hr ea eb with hq | ⟨s1, hq, p1, r1, _⟩
+      · rw [hq]; exact ih s hc hr er
+      · rw [hq]; exact ih s1 p1.core r1 er
+    | ctl c =>
+      unfold Returns returnsB
+      obtain ⟨c1, r1⟩ := C16_inv_control h hc hr c
+      exact ih _ c1 r1 he
+
+/-- **C16_reachable_info_total**: the same, phrased on what `xmp_get_frame_info` reports. -/
+theorem C16_reachable_info_total {m : SeqMod} (h : WF m) (ho : OrdWF m) (hist : List Call) (s : St) (hc : Core m s)
+    (hr : RowInv m s) (he : EffsOk hist) :
+    Returns m s hist ∧ ∀ s' ∈ frames m s hist,
+      InfoOk m (frameInfo m s') ∧ (frameInfo m s').row < (frameInfo m s').numRows ∧ 0 < s'.ftBpm :=
+  ⟨(C16_reachable_total h ho hist s hc hr he).1, C16_reachable_info h hist s hc hr he⟩
+
+theorem exMod_ordwf : OrdWF exMod := by unfold OrdWF; decide +kernel
+
+example : Returns exMod exStart exHist := by unfold Returns; decide
+
+/-- a marker module: orders `[0xfe, 0, 0xff, 0xfe, 1]`, sequence 0 enters at order 0, sequence 1 at
+order 3; neither entry point holds a pattern and the restart position 0 does not either -/
+def exMark : SeqMod :=
+  { exMod with len := 5, xxo := [0xfe, 0, 0xff, 0xfe, 1] ++ List.replicate 251 0, marker := true,
+               seqCtl := [0, 0, 0, 1, 1] ++ List.replicate 251 0xff, numSeq := 2, entry := [0, 3], scanOrd := [1, 4],
+               scanRow := [0, 0], scanNum := [1, 1], oSpeed := List.replicate 256 6, oBpm := List.replicate 256 125 }
+
+example : WF exMark ∧ OrdWF exMark := by unfold WF OrdWF; decide +kernel
+
+/-- from order 4 of sequence 1 the loop wraps to the entry point 3 (a 0xfe marker) and stops on
+order 4: two iterations; from order 1 of sequence 0 it meets the end marker at order 2, wraps to
+order 0 (0xfe) and stops on order 1: three iterations; a jump far past the list wraps at once -/
+example : nextOrderLoop exMark 1 2 4 false = some (4, true) ∧ nextOrderLoop exMark 1 1 4 false = none ∧
+    nextOrderLoop exMark 0 2 1 false = some (1, true) ∧ nextOrderLoop exMark 0 1 1 false = none ∧
+    nextOrderLoop exMark 0 2 200 false = some (1, true) := by decide
+
+/-- without `OrdWF` the loop can hang: orders `[0xff, 0xff, 0]` of a marker module with a single
+sequence entering at 0 (a module `libxmp_scan_sequences` refuses: its first scan plays no row) -/
+example :
+    let bad : SeqMod := { exMark with len := 3, xxo := [0xff, 0xff, 0] ++ List.replicate 253 0, numSeq := 1, entry := [0] }
+    ordWfB bad = false ∧ nextOrderLoop bad 0 orderFuel 2 false = none := by decide +kernel
+
 end Xmp.Seq
 
 namespace Xmp.Tick
@@ -325,6 +455,50 @@ theorem C16_ticksize_agrees (freq tfN tfD rrN rrD bpm : Int) (h1 : minSrate ≤ 
   unfold rawTicks
   exact ⟨rfl, vpos, by simp only [intMax]; omega, c1, c2⟩
 
+/-- **C16_tempo_factor_no_clamp**: a tempo factor that `xmp_set_tempo_factor` ACCEPTS is never
+clamped by `libxmp_mixer_prepare` at the rate and tempo it was accepted for: the tick size the
+mixer uses is exactly what `libxmp_mixer_get_ticksize` computes (between the 8-frame minimum and
+`XMP_MAX_FRAMESIZE / 4`), so the reported buffer size agrees with rate × frame time
+(`C16_ticksize_agrees`) — and the same holds for every FASTER tempo later set by the module
+(`bpm ≤ bpm'`); only a slower tempo or a higher rate can bring the cap back.  A refused factor
+leaves `m->time_factor` alone (`none`). -/
+theorem C16_tempo_factor_no_clamp (freq rrN rrD bpm vN vD n d : Int) (hvd : 0 < vD) (hrd : 0 < rrD)
+    (h : setTempoFactor freq rrN rrD bpm vN vD = some (n, d)) :
+    n = vN * 10 ∧ d = vD ∧ 0 < n ∧
+    (∀ bpm', bpm ≤ bpm' →
+      prepare freq n d rrN rrD bpm' = getTicksize freq n d rrN rrD bpm' ∧
+      minTicks ≤ prepare freq n d rrN rrD bpm' ∧ prepare freq n d rrN rrD bpm' ≤ capTicks) := by
+  unfold setTempoFactor at h
+  by_cases hv : vN ≤ 0
+  · rw [if_pos hv] at h; cases h
+  rw [if_neg hv] at h
+  simp only at h
+  by_cases ht : getTicksize freq (vN * 10) vD rrN rrD bpm < 0 ∨ getTicksize freq (vN * 10) vD rrN rrD bpm > capTicks
+  · rw [if_pos ht] at h; cases h
+  rw [if_neg ht] at h
+  simp only [Option.some.injEq, Prod.mk.injEq] at h
+  obtain ⟨hn, hd⟩ := h
+  subst hn; subst hd
+  refine ⟨rfl, rfl, by omega, fun bpm' hb => ?_⟩
+  have a := getTicksize_antitone freq (vN * 10) vD rrN rrD bpm bpm' hvd hrd hb (by omega)
+  have r := getTicksize_range freq (vN * 10) vD rrN rrD bpm'
+  have e : prepare freq (vN * 10) vD rrN rrD bpm' = getTicksize freq (vN * 10) vD rrN rrD bpm' := by
+    unfold prepare
+    simp only
+    rw [if_neg (by omega)]
+  rw [e]
+  exact ⟨rfl, by rcases r with r | r <;> omega, by omega⟩
+
+/-- 44100 Hz, PAL rate, 125 BPM: factor 6.5 is accepted (5733 frames per tick, no clamp);
+factor 7 would need 6174 frames and is refused; 49170 Hz at 20 BPM accepts factor 1 (exactly the
+cap, 6146 frames) and refuses 1.001; non-positive factors are refused -/
+example : setTempoFactor 44100 250 1 125 13 2 = some (130, 2) ∧ prepare 44100 130 2 250 1 125 = 5733 ∧
+    setTempoFactor 44100 250 1 125 7 1 = none ∧ getTicksize 44100 70 1 250 1 125 = 6174 ∧
+    setTempoFactor 49170 250 1 20 1 1 = some (10, 1) ∧ prepare 49170 10 1 250 1 20 = 6146 ∧
+    setTempoFactor 49170 250 1 20 1001 1000 = none ∧ setTempoFactor 44100 250 1 125 (-1) 1 = none := by decide
+
+example := C16_tempo_factor_no_clamp 44100 250 1 125 13 2 130 2 (by decide) (by decide) (by decide)
+
 end Xmp.Tick
 
 namespace Xmp.Virt
@@ -332,8 +506,9 @@ namespace Xmp.Virt
 /-- **C16_virt_inv**: the bookkeeping invariant `VInv` (voice↔channel maps mutually inverse,
 `virt_used` = number of voices in use, `count[c]` = number of voices rooted at `c`, sizes) is
 established by `libxmp_virt_on` for any non-negative voice count and preserved by EVERY
-table-changing operation of virtual.c (`reset`, `resetvoice`, `resetchannel`, `setvol`,
-`setpatch` incl. voice stealing and the NNA relocation, `pastnote` CUT) under the operation's
+operation of virtual.c that writes the tables or a modelled voice field (`reset`, `resetvoice`,
+`resetchannel`, `setvol`, `setpatch` incl. voice stealing and the NNA relocation, `pastnote` CUT /
+OFF / FADE, `setnna`, `setsmp`, `queuepatch`) under the operation's
 precondition `OpOk` (monitored by the harness at every real call): `resetvoice` on a voice in
 use; `setpatch` on a track channel, and either as many background slots as voices
 (`QUIRK_VIRTUAL`: `virtOn_quirk`) or no NNA relocation pending. The pigeonhole argument for the
@@ -355,6 +530,15 @@ theorem C16_virt (numTracks numvoc : Int) (q : Bool) (h1 : 0 ≤ numTracks) (h2 
 /-- non-vacuity: a history on 2 tracks + 3 voices whose second `setpatch` (NNA = continue)
 takes the relocation branch satisfies the hypotheses, and 3 voices are then in use -/
 example : RunOk (virtOn 2 3 true) demoOps ∧ ((demoOps.take 3).foldl step (virtOn 2 3 true)).virtUsed = 3 := by
+  decide
+
+/-- the field-only operations: after two notes on channel 0 (the first voice relocated to background
+channel 2), `setnna` changes the pending action of the foreground voice, `setsmp` its sample (and
+zeroes its volume), `queuepatch` its instrument; `pastnote OFF` leaves the tables alone -/
+example :
+    let s := ([.setPatch 0 1 1 60 1 0 0, .setPatch 0 1 1 62 1 0 0, .setNna 0 3 true, .setSmp 0 7, .queueIns 0 4,
+               .pastNoteOther 0 2] : List Op).foldl step (virtOn 2 3 true)
+    ((s.voice 1).chn, (s.voice 1).act, (s.voice 1).smp, (s.voice 1).ins, s.virtUsed, (s.voice 0).chn) = (0, 3, 7, 4, 2, 2) := by
   decide
 
 end Xmp.Virt
